@@ -14,7 +14,7 @@ func runC05() *RunResult {
 	w := &World{prop: "C05", refInline: true, judgeOutcome: true, checkOld: true, selfReentry: true, memoEqualDocs: true}
 	nt := 1
 	if chance(30) {
-		nt = 2 + rn(3)
+		nt = 2 + rn(widen(3))
 	}
 	dg := docGen{useNumber: chance(30)}
 	trap := chance(30)
@@ -42,7 +42,7 @@ func runC05() *RunResult {
 		up := genPathFor(t.docs[udoc].Val, ucfg.Funcs, trap, 3, 1)
 
 		t.ops = append(t.ops, &Op{Kind: opParse, Path: p, Cfg: cfg, Slot: 0})
-		ncalls := 2 + rn(7)
+		ncalls := 2 + rn(widen(7))
 		if rn(25) == 24 {
 			ncalls = 17 + rn(50) // now and then a long history (the 17th, 33rd, 65th call)
 		}
